@@ -111,6 +111,18 @@ def parseS : Nat → List String → Option (Stmt × List String)
         let (ss, rest) ← parseL fuel n rest
         some (.block ss, rest)
     | "O" :: rest => some (.empty, rest)
+    | "X" :: rest => do
+        let (e, rest) ← parseE (rest.length + 1) rest
+        some (.throw_ e, rest)
+    | "Y" :: n :: rest => do
+        let n ← n.toNat?
+        let (body, rest) ← parseL fuel n rest
+        match rest with
+        | m :: rest => do
+            let m ← m.toNat?
+            let (handler, rest) ← parseL fuel m rest
+            some (.tryCatch body handler, rest)
+        | [] => none
     | _ => none
 
 def parseL : Nat → Nat → List String → Option (List Stmt × List String)
@@ -147,6 +159,9 @@ def showOp : Compile.Op → String
   | .jumpIfNotNullish c t => s!"JumpIfNotNullish {c} {t}"
   | .pushScope => "PushScope"
   | .popScope => "PopScope"
+  | .pushTry t => s!"PushTry {t} 0"
+  | .popTry => "PopTry"
+  | .throw_ r => s!"Throw {r}"
   | .halt => "Halt"
 
 def compileLine (s : String) : String :=
@@ -178,6 +193,7 @@ def opsSem : Sem V String where
     | .in_ | .instanceof => .error "TypeError"
     | _ => match binop (binTok op) a b with | some r => .ok r | none => .error "unmodelled"
   refErr := fun x => "ReferenceError:" ++ x
+  ofVal := fun v => "value:" ++ TsrunVerif.Ops.showV v
 
 def parseEnv (s : String) : Option (Env TsrunVerif.Ops.V) :=
   ((s.splitOn ",").filter (· != "")).mapM (fun kv =>
@@ -200,7 +216,7 @@ def runLine (envS stmtS : String) : String :=
       match compileProgram st with
       | none => "ERR"
       | some code =>
-        match run opsSem code 10000000 { pc := 0, regs := fun _ => .undef, env := env } with
+        match run opsSem code 10000000 { pc := 0, regs := fun _ => .undef, env := env, hs := [] } with
         | some (.halt s) => "ok " ++ showEnv s.env
         | some (.throw e s) => "throw " ++ e ++ " " ++ showEnv s.env
         | some .fault => "fault"
